@@ -23,6 +23,10 @@ import c18_values as cv
 
 AREA = "C16"
 THREAD_CLASSES = C16.HIST_CLASSES + ["QField<Rational>", "Independent<Integer,Rational,ruint>"]
+# rarely instantiated storage types / specialisations (built by make18 of harness/c18_threads.C, not among C16's history classes)
+EXTRA_RINGS = ["Modular<int8_t>", "Modular<uint8_t>", "Modular<int16_t>", "Modular<uint16_t>", "Modular<int32_t,int64_t>", "Modular<uint32_t,uint64_t>",
+               "Modular<float,double>", "Modular<ruint<6>>", "ModularExtended<double>", "ModularExtended<float>"]
+THREAD_CLASSES = THREAD_CLASSES + EXTRA_RINGS
 MIXED = ("Mixed<values>", "MixedRotate<values>")
 EXTRA_V = ["RaceFreeDisjoint.v", "RaceFreeValues.v", "gen/RaceFreeGen.v", "RaceFreeProps.v"]      # the C18 engineer's part of coq/C16
 TRANSIENT = re.compile(r"inconsistent assumptions|bad version number|End_of_file|Cannot find a physical path|not a valid|No such file|Cannot open|Compiled library")
@@ -294,24 +298,37 @@ def report_thread_line(chk, r, line, second=None):
                    "replay: echo '%s' | c18_threads   (reproduced in a second run)" % r.strip())
 
 
-def run_threads(chk, tier):
+def start_builds(chk):
+    """both harness builds (plain, ThreadSanitizer + instrumented library) in the background while the translators and Coq run"""
     res = {}
-    vf.build_repo_lib()              # once, before the two harness builds run concurrently
 
     def build_std():
-        res["std"] = vf.build_harness("c18_threads.C", deps=("c16_probes.h", "c18_values.h"), name="c18_threads_std")
+        try:
+            res["std"] = vf.build_harness("c18_threads.C", deps=("c16_probes.h", "c18_values.h"), name="c18_threads_std", timeout=2400)
+        except Exception as ex:
+            res["std"] = (None, str(ex))
 
     def build_san():
         try:
             res["tsan"] = build_tsan(chk)
         except Exception as ex:
             res["tsan"] = (None, str(ex))
-    jobs = [threading.Thread(target=build_std), threading.Thread(target=build_san)]
-    for j in jobs:
-        j.start()
-    for j in jobs:
-        j.join()
-    hb, log = res["std"]
+
+    def both():
+        vf.build_repo_lib()              # once, before the two harness builds run concurrently
+        jobs = [threading.Thread(target=build_std), threading.Thread(target=build_san)]
+        for j in jobs:
+            j.start()
+        for j in jobs:
+            j.join()
+    t = threading.Thread(target=both)
+    t.start()
+    return res, t
+
+
+def run_threads(chk, tier, res, builder):
+    builder.join()
+    hb, log = res.get("std", (None, "build thread died"))
     n = 0
     forms = {}
     if hb is None:
@@ -358,7 +375,7 @@ def run_threads(chk, tier):
                 else:
                     inconclusive(chk, "std::thread run: '%s' answered '%s' once and '%s' in the second run (not reproduced: not reported)" % (r.strip(), line, l2))
     chk.cov["thread_runs"] = n
-    tb, tlog = res["tsan"]
+    tb, tlog = res.get("tsan", (None, "build thread died"))
     if tb is None:
         inconclusive(chk, "ThreadSanitizer build failed (support run skipped)", tlog)
         chk.cov["call_forms_values"] = forms
@@ -427,6 +444,7 @@ def main(tier, replay=None):
         "elements / operands are thread-private; documented setters of process-wide parameters (Rational::SetReduce/SetNoReduce, rmint::init_module) "
         "are not called while other threads compute",
     ]
+    builds, builder = start_builds(chk)
     descs, meta = C16.generate(chk)
     vres = values_model(chk)
     res = vf.coq_check_props(AREA)
@@ -446,7 +464,7 @@ def main(tier, replay=None):
         chk.cov["methods_decided_race_free"] = n_ok
         chk.cov["randomised_operations_outside_claim"] = rand[:60]
         chk.cov["classes"] = C16.describe_for_evidence(descs)
-    run_threads(chk, tier)
+    run_threads(chk, tier, builds, builder)
     chk.cov["rule"] = ("per class in scope: one shared object, (parameter set, threads) in {(0,2),(1,4),(2,8)} (thorough: 6 combinations up to 8 threads, "
                        "300 iterations); each thread repeats probe(shared) / copy-construct / probe(copy) / destroy and compares every digest with the "
                        "sequential digest; Mixed<values>: 9 operation families on thread-private Integer / Rational / ruint / rint / rmint values "
